@@ -434,10 +434,68 @@ def enum_all(tier, shard, nshards):
                        ['reinstall', 'no-overlap', 'assign'], ['read'], ['reinstall', 'compact', 'second_adapter'], ['inner', 'step', 1], ['read'], ['inner', 'second_adapter', 2], ['inner', 'reset', 0], ['step', 3], ['sibling', 'seed', 3], ['sibling', 'step', 1], ['step', 2], ['sibling', 'reset', 0], ['step', 0], ['sibling', 'rep', 2], ['read'], ['step', 1]]
 
 
+# ------------------------------------------------------------------ a reset function that re-uses one State object
+
+
+def enum_kept(tier, shard, nshards):
+    for i, (obs, rep) in enumerate([(o, r) for o in ('partially_occluded', 'raytracing', 'fully_transparent') for r in NAMES]):
+        if i % nshards == shard:
+            yield {'obs': obs, 'rep': rep}
+
+
+def oracle_kept(case, ctx):
+    """a fixed map whose reset function keeps one State object and re-spawns the agent in it; the gym adapter is reset twice in a row,
+    stepped, reset again ...: every returned observation is the encoding of the observation of the state the environment is in now"""
+    from gym_gridverse.envs.gridworld import GridWorld
+    from gym_gridverse.geometry import Position
+    from vgv import gen
+    rows = [['W', 'W', 'W', 'W', 'W'], ['W', 'F', 'F', 'K:RED', 'W'], ['W', 'F', 'W', 'F', 'W'], ['W', 'D:CLOSED:RED', 'F', 'E:NONE', 'W'], ['W', 'W', 'W', 'W', 'W']]
+    sd = {'grid': rows, 'agent': [1, 1, 'F', '_']}
+    space = {'types': ['Floor', 'Wall', 'Key', 'Door', 'Exit'], 'colors': ['NONE', 'RED']}
+    comp = {'chain': ['move_agent', 'turn_agent'], 'rewards': [{'name': 'living_reward', 'reward': -1.0}], 'term': {'name': 'reach_exit'}, 'obs': case['obs'], 'view': [3, 3]}
+    ref = envs.mk_env(space, (5, 5), comp, reset_state=sd)
+    kept = objs.build_state(sd)
+    spawn = [(1, 1, 'F'), (3, 2, 'L'), (1, 2, 'R'), (2, 3, 'B'), (2, 1, 'F')]
+    n = [0]
+
+    def reset(*, rng=None):
+        y, x, hd = spawn[n[0] % len(spawn)]
+        n[0] += 1
+        kept.agent.position = Position(y, x)
+        kept.agent.orientation = objs.ori(hd)
+        return kept
+
+    inner = GridWorld(ref.state_space, ref.action_space, ref.observation_space, reset, envs.mk_transition(comp['chain']), envs.mk_obs(comp['obs'], gen.view_area(3, 3)),
+                      envs.mk_rewards(comp['rewards']), envs.mk_term(comp['term']))
+    inner.set_seed(3)
+    env = GymEnvironment(OuterEnv(inner, observation_representation=make_observation_representation(case['rep'], inner.observation_space)))
+    fresh = make_observation_representation(case['rep'], inner.observation_space)
+
+    def check(obs, what):
+        exp = fresh.convert(envs.mk_obs(comp['obs'], gen.view_area(3, 3))(inner.state))
+        if sorted(obs) != sorted(exp) or any(not np.array_equal(obs[k], exp[k]) for k in exp):
+            ctx.fail(f'{what}: the returned observation ({case["obs"]}, {case["rep"]}) is not the encoding of the observation of the state the environment is in now '
+                     f'(agent at {(inner.state.agent.position.y, inner.state.agent.position.x)})', {'kind': 'adapter_value', 'aspect': 'kept_reset_state'})
+        if not env.observation_space.contains(obs):
+            ctx.fail(f'{what}: returned observation outside the advertised space', {'kind': 'adapter_space'})
+
+    script = ['reset', 'reset', 'step', 'reset', 'reset', 'reset', 'step', 'step', 'reset']
+    for k, op in enumerate(script):
+        if op == 'reset':
+            check(env.reset(), f'reset number {script[:k + 1].count("reset")} (op {k})')
+        else:
+            obs, r, done, info = env.step(k % env.action_space.n)
+            check(obs, f'step (op {k})')
+    ctx.ev.case(case, nt=True, classes=['kept_reset_state', 'obs:' + case['obs']])
+
+
 CHECKS = [
     Check('adapter_machine', oracle, machine=machine, examples={'quick': 60, 'thorough': 200}, steps={'quick': 30, 'thorough': 50}, shards={'quick': 8, 'thorough': 16},
           rule='rule-based machine (reset, step(i), reads, set_state/observation_representation, state-wrapper reset/step, a sibling instance of the same id touched in between; the wrapped inner environment driven directly or through a second adapter; an environment of the base configuration used earlier when the spaces were extended) on shipped and perturbed configurations (re-ordered action lists), direct and via registered ids, vs. a functionally driven twin',
           required=['observation_changed', 'representation_switch', 'state_wrapper', 'registry', 'direct', 'reordered_actions', 'sibling_touched_registry', 'predecessor_with_smaller_spaces', 'inner_driven_directly', 'representation_replaced_then_reselected']),
     Check('all_shipped_scripted', oracle, enumerate=enum_all, shards={'quick': 8, 'thorough': 8},
           rule='all 22 shipped configurations directly and all 21 registered ids through the registry x a fixed 24-op script covering every adapter operation, including a second live instance of the same id being seeded, stepped, reset and reconfigured in between'),
+    Check('kept_reset_state', oracle_kept, enumerate=enum_kept, shards={'quick': 3, 'thorough': 3}, exhaustive=True,
+          rule='a GridWorld whose reset function re-uses one State object and re-spawns the agent in it, behind OuterEnv and GymEnvironment x 3 observation functions x 3 representations: resets back to back, steps, resets: every returned observation is the encoding of the observation of the current state',
+          required=['kept_reset_state']),
 ]
